@@ -422,6 +422,7 @@ func init() {
 			"R11.1 no typed nil pointer enters a Statement/Expression/Node interface slot: every conversion of a may-be-nil node pointer to an ast interface is dominated by a nil test of that pointer (otherwise the statement loops' `stmt != nil` filter is ineffective and a nil entry reaches a statement list); " +
 			"R11.2 every nil-valued return of a node pointer/interface/slice is reached only after an error was recorded (directly, through the false edge of an expect call, or through the nil edge of a callee with the same summary — summaries are verified, not assumed); " +
 			"R11.4 ParseProgram returns a non-nil error exactly on the branch where the error list is non-empty, a non-nil program on every path; only the constructor and the single error constructor write the error list (append only); only that function builds ParserError values, with the range {tok.Start, tok.End} of one token parameter; every caller passes the parser's current or peek token. " +
+			"R11.6 also covers the statement-list loops (program, block): every way round such a loop passes a NextToken of the loop itself, so a statement parser that fails without consuming anything cannot make the parser spin. " +
 			"A pass means every enumerated obligation is discharged on the current source; termination and absence of panics for all inputs are covered only as far as R11.5/R11.6 are armed (see rules list).",
 		notDecided: []string{"stack exhaustion on deeply nested input", "errors added by plugins", "termination/panic-freedom beyond the enumerated obligations"},
 	})
@@ -873,6 +874,75 @@ func r11_6(c *Ctx, t *tables) {
 	}
 	if n == 0 {
 		c.unres("infix applier", token.NoPos, "no function looks up the infix table")
+	}
+	// (4) the statement-list loops (program, block): every iteration consumes a token itself — a statement parser
+	// that fails may have consumed nothing, so an advance hidden inside it (or made only when it succeeded) is not
+	// progress
+	stmtIface := c.lookupType("ast", "Statement")
+	nl := 0
+	for _, f := range c.libFunctions("parser") {
+		if f.Parent() != nil || f.Blocks == nil {
+			continue
+		}
+		for _, h := range f.Blocks {
+			isHeader := false
+			for _, p := range h.Preds {
+				if h.Dominates(p) {
+					isHeader = true
+				}
+			}
+			if !isHeader {
+				continue
+			}
+			// the loop parses statements: a call inside it yields an ast.Statement
+			parses := false
+			for _, b := range f.Blocks {
+				if !h.Dominates(b) {
+					continue
+				}
+				for _, call := range callsIn(b) {
+					if stmtIface != nil && types.Identical(call.Type(), stmtIface) && !call.Call.IsInvoke() {
+						parses = true
+					}
+				}
+			}
+			if !parses {
+				continue
+			}
+			nl++
+			key := fmt.Sprintf("%s: statement loop at block %d advances in every iteration", fnName(f), h.Index)
+			bad := ""
+			complete := a.enumPathsAll(h, func(facts []pathFact, blocks []*ssa.BasicBlock, last *ssa.BasicBlock, back bool) {
+				if !back || last != h {
+					return
+				}
+				for _, b := range blocks {
+					for _, call := range callsIn(b) {
+						if call.Call.StaticCallee() == a.nextTok {
+							return
+						}
+					}
+				}
+				if bad == "" {
+					var idx []string
+					for _, b := range blocks {
+						idx = append(idx, fmt.Sprint(b.Index))
+					}
+					bad = strings.Join(idx, "→")
+				}
+			})
+			switch {
+			case !complete:
+				c.unres(key, h.Instrs[0].Pos(), "too many paths")
+			case bad != "":
+				c.bad(key, f.Pos(), "an iteration of the statement loop can come round without the loop itself advancing (blocks %s): when the statement parser fails without consuming anything the parser spins forever on the same token", bad)
+			default:
+				c.ok(key, f.Pos(), "every path round the loop passes a direct NextToken")
+			}
+		}
+	}
+	if nl == 0 {
+		c.unres("statement loops", token.NoPos, "no loop that parses statements found")
 	}
 }
 
